@@ -382,6 +382,8 @@ PLAN: Dict[str, dict] = {
             G("R-LAYOUT", "derivative's column indices never meet an option-dependent names layout"),
             G("R-CALLTAIL", "partial evaluation re-aligns by name, not by position"),
             G("R-OPT-TABLE", "an option setting is in force exactly inside its with-block: no leak on exceptions, rejected calls or library-internal set_options"),
+            G("R-GRAD", "gradient/hessian differentiate by name (poly.names), not by option-dependent indeterminate objects"),
+            G("R-ALIGN", "operands are combined by position only after alignment: equal keys do not imply equal names once retain_names=False drops unused names"),
         ],
         "explanation": "Who-may-read layering of the 12 option keys over all 33 read sites; retain_* only replace a None argument; "
                        "graded=/reverse= receive *_graded/*_reverse of the right family or the function's own parameters; "
